@@ -63,6 +63,9 @@ def _case(draw, tier):
     src = draw(_mesh(big))
     same = draw(sampled_from([False, False, True]))
     dst = src if same else draw(_mesh(big))
+    # fine patches are generated with lon/lat or unit-sphere coordinates only (DESIGN section 16: the combination with
+    # non-unit Cartesian coordinates is an open, untriaged observation and is not judged)
+    fine = src.get("family") == "tiny-patch" or dst.get("family") == "tiny-patch"
     kind = draw(sampled_from(["nodes", "edge centers", "face centers"]))
     return {
         "src": src,
@@ -85,8 +88,8 @@ def _case(draw, tier):
         "twin": draw(sampled_from(["object", "object", "twin", "twin-centres", "twin-edges"])) if same else None,
         "src_edge_seed": draw(sampled_from([None, None, 3, 17])),
         # Cartesian node coordinates supplied on a sphere of this radius (None: lon/lat only)
-        "radius_src": draw(sampled_from([None, None, None, 1.0, 2.5, 6371.0])),
-        "radius_dst": draw(sampled_from([None, None, None, 1.0, 2.5, 6371.0])),
+        "radius_src": draw(sampled_from([None, None, None, 1.0, 2.5, 6371.0] if not fine else [None, None, None, 1.0, 1.0, 1.0])),
+        "radius_dst": draw(sampled_from([None, None, None, 1.0, 2.5, 6371.0] if not fine else [None, None, None, 1.0, 1.0, 1.0])),
     }
 
 
